@@ -215,6 +215,9 @@ def run(ctx):
             fr, fields = header(r, toks[name], t)
             fr = fr.replace(b"H|", b"H|\n", 1) if r.random() < 0.5 else fr     # LF before the token
         sel_cases.append((fr, None, fields))
+    # a first frame may be an intermediate one (ETB): a long header record split by the analyser
+    sel_cases = [(gens.frame(int(fr[1:2]), fr[2:-6], False), nm, fl)
+                 if r.random() < 0.25 and fr[-5:-4] == b"\x03" and fr[1:2].isdigit() else (fr, nm, fl) for fr, nm, fl in sel_cases]
     lines = ["select %s" % hexb(fr) for fr, _, _ in sel_cases]
     model = common.drive(lines) if ctx.driver_ok else [None] * len(lines)
     from senaite.astm import wrapper
@@ -222,6 +225,17 @@ def run(ctx):
     history = []
     for (fr, named, fields), ml in zip(sel_cases, model):
         following = [gens.message_frames(r, seq=2, parts=1)[0][0] for _ in range(r.choice([0, 1, 3]))]
+        if r.random() < 0.35:
+            # later frames that spell a model themselves (the continuation of a split header, a forwarded header, a
+            # comment); the first frame may be an intermediate one (ETB).  Only the first frame selects.
+            other = r.choice(list(toks))
+            dtext = "|".join(header(r, toks[other], r.choice(toks[other]["tokens"]))[1])
+            if r.random() < 0.5:
+                dtext = dtext[2:]                      # (reads as the continuation of the first frame's record)
+            following = [gens.frame(2, dtext.encode("latin-1"), True)] + following
+            s2.count("later-frame-names-a-model")
+            if fr[-4:-3] == b"\x17":
+                s2.count("first-frame-intermediate")
         # earlier messages and a shuffled discovery order must not matter
         was_shuffled = False
         if r.random() < 0.5:
@@ -238,7 +252,7 @@ def run(ctx):
             wrapper.pkgutil.iter_modules = real_iter
         sx = fr.decode("latin-1")
         exp = expected_module(sx)
-        case = {"header": hexb(fr), "named": named}
+        case = {"header": hexb(fr), "named": named, "following_frames": [hexb(x) for x in following[:2]]}
         nonempty = sum(1 for f in fields[2:] if f)
         s2.case(case, nontrivial=named is not None and nonempty >= 3)
         s2.count(got)
@@ -441,7 +455,7 @@ def replay(payload):
     c = payload.get("case", {})
     if "header" in c:
         fr = common.unhex(c["header"])
-        got = real_select([fr], real_modules())
+        got = real_select([fr] + [common.unhex(x) for x in c.get("following_frames", [])], real_modules())
         exp = expected_module(fr.decode("latin-1"))
         print("selected=%s expected=%s" % (got, exp))
         return 1 if exp is not None and got != exp else 0
